@@ -11,7 +11,13 @@ inductive Ev
   | grant (voter term cand : Nat)
   | fapply (srv life idx term payload : Nat)
   | frestore (srv life : Nat) (data : List Nat)
-  | notify (srv life : Nat) (v : Bool)
+  | notify (srv life : Nat) (v : Bool) (t : Nat)
+  | calm (t : Nat)
+  | calmEnd (t : Nat)
+  | isolate (srv life t lease : Nat)
+  | endObs (t : Nat)
+  | restoreInvoke (srv life t : Nat)
+  | restore (srv life t0 t1 : Nat) (ok : Bool) (metaIdx last : Nat) (data : List Nat)
   | dead (srv life : Nat)
   | crash (srv life t : Nat)
   | invoke (cid : Nat)
@@ -225,9 +231,9 @@ def alternates : List Bool → Bool → Bool
   | v :: rest, expect => v == expect && alternates rest (!expect)
 
 def notifyAlternates (h : List Ev) : Option String :=
-  let ls := (h.filterMap (fun e => match e with | .notify s l _ => some (s, l) | _ => none)).eraseDups
+  let ls := (h.filterMap (fun e => match e with | .notify s l _ _ => some (s, l) | _ => none)).eraseDups
   ls.findSome? (fun sl =>
-    let vs := h.filterMap (fun e => match e with | .notify s l v => if s == sl.1 && l == sl.2 then some v else none | _ => none)
+    let vs := h.filterMap (fun e => match e with | .notify s l v _ => if s == sl.1 && l == sl.2 then some v else none | _ => none)
     if alternates vs true then none else some s!"notifications-of-{sl.1}-do-not-alternate")
 
 /-! ## C09 -/
@@ -245,5 +251,75 @@ def verifyFresh (h : List Ev) : Option String :=
       | some x => some s!"verify-leader-succeeded-on-{srv}-in-term-{term}-although-{x.1}-led-term-{x.2.1}-before-the-call"
       | none => none
     else none)
+
+/-! ## C13 -/
+
+/-- a leader cut off from every other voter at instant `T` gives up leadership within twice the lease
+    (10 ms of slack for answers that were already travelling), and refuses writes afterwards -/
+def leaseStepDown (h : List Ev) : Option String :=
+  h.findSome? (fun e => match e with
+    | .isolate srv life T lease =>
+        let downs := h.filterMap (fun x => match x with
+          | .notify s l false t => if s == srv && l == life && t ≥ T then some t else none
+          | _ => none)
+        match downs.head? with
+        | none => some s!"isolated-leader-{srv}-never-stepped-down"
+        | some t =>
+          if t > T + 2 * lease + 10 then some s!"isolated-leader-{srv}-stepped-down-after-{t - T}-ms"
+          else
+            match (calls h).find? (fun c => c.2.1 == srv && c.2.2.1 == life && c.2.2.2.1 == 0 && c.2.2.2.2.2.1 > t && c.2.2.2.2.2.1 < T + 450 && c.2.2.2.2.2.2.2.1 == 0) with
+            | some c => some s!"write-{c.1}-accepted-after-the-lease-expired"
+            | none => none
+    | _ => none)
+
+/-- while nothing is wrong nothing changes: no leadership gained or lost, no new term -/
+def calmStable (h : List Ev) : Option String :=
+  match h.findSome? (fun e => match e with | .calm t => some t | _ => none),
+        h.findSome? (fun e => match e with | .calmEnd t => some t | _ => none) with
+  | some t1, some t2 =>
+      if h.any (fun e => match e with | .notify _ _ _ t => t > t1 && t < t2 | _ => false) then some "leadership-changed-in-a-fault-free-stretch"
+      else if h.any (fun e => match e with | .sender _ _ t => t > t1 && t < t2 | _ => false) then some "new-term-in-a-fault-free-stretch"
+      else none
+  | _, _ => none
+
+/-! ## C20 -/
+
+/-- after a user Restore that returned nil: the leader's FSM was handed exactly the supplied state;
+    every write acknowledged afterwards has an index above the snapshot's index and above every
+    earlier index; writes that were answered ErrAbortedByRestore left no trace; and in the end every
+    server holds the restored state followed by the later entries -/
+def restoreOK (h : List Ev) : Option String :=
+  h.findSome? (fun e => match e with
+    | .restore srv life t0 t1 true metaIdx last data =>
+        let idxd := h.zipIdx
+        let invPos := (h.findIdx? (fun x => match x with | .restoreInvoke s l _ => s == srv && l == life | _ => false)).getD 0
+        let retPos := (h.findIdx? (fun x => match x with | .restore s l _ _ _ _ _ _ => s == srv && l == life | _ => false)).getD 0
+        let restoredLocally := idxd.any (fun (x, i) => i > invPos && i < retPos && (match x with
+          | .frestore s l d => s == srv && l == life && d == data
+          | _ => false))
+        if !restoredLocally then some "leader-fsm-was-not-handed-the-supplied-snapshot"
+        else
+          let cs := (calls h).filter (fun c => c.2.2.2.1 == 0)
+          match cs.find? (fun c => c.2.2.2.2.2.2.2.1 == 0 && c.2.2.2.2.2.1 ≥ t1 && c.2.2.2.2.2.2.2.2.1 ≤ max metaIdx last) with
+          | some c => some s!"write-{c.1}-after-the-restore-got-an-index-not-above-the-restored-one"
+          | none =>
+            let aborted := (cs.filter (fun c => c.2.2.2.2.2.2.2.1 == 6)).map (fun c => c.2.2.2.2.1)
+            let after := (cs.filter (fun c => c.2.2.2.2.2.2.2.1 == 0 && c.2.2.2.2.2.1 ≥ t1)).map (fun c => c.2.2.2.2.1)
+            let before := (cs.filter (fun c => c.2.2.2.2.2.2.1 < t0)).map (fun c => c.2.2.2.2.1)
+            (finalStates h).findSome? (fun st =>
+              if st.2.2.take data.length ≠ data then some s!"final-state-of-{st.1}-does-not-start-with-the-restored-state"
+              else if aborted.any (fun p => st.2.2.contains p) then some s!"aborted-write-left-a-trace-on-{st.1}"
+              else if before.any (fun p => (st.2.2.drop data.length).contains p) then some s!"write-from-before-the-restore-survives-on-{st.1}"
+              else if after.any (fun p => !(st.2.2.contains p)) then some s!"write-after-the-restore-missing-on-{st.1}"
+              else none)
+    | _ => none)
+
+/-- all final states equal (restore runs cannot use the agreed-history monitors) -/
+def finalStatesEqual (h : List Ev) : Option String :=
+  match finalStates h with
+  | [] => some "no-final-dump"
+  | s0 :: rest => match rest.find? (fun s => s.2.2 ≠ s0.2.2) with
+    | some s => some s!"final-states-of-{s0.1}-and-{s.1}-differ"
+    | none => none
 
 end CL
